@@ -47,7 +47,41 @@ func main() {
 		if err != nil {
 			return nil
 		}
+		src, _ := os.ReadFile(path)
+		del := func(st ast.Stmt, kind string) {
+			p, q := fset.Position(st.Pos()), fset.Position(st.End())
+			if p.Offset < q.Offset && q.Offset <= len(src) {
+				enc.Encode(mut{rel, p.Offset, "ARGS:" + strconv.Itoa(q.Offset-p.Offset), "", p.Line, kind})
+			}
+		}
 		ast.Inspect(f, func(n ast.Node) bool {
+			if blk, ok := n.(*ast.BlockStmt); ok && os.Getenv("MUT_DELETE") != "" {
+				for _, st := range blk.List {
+					switch x := st.(type) {
+					case *ast.ExprStmt:
+						del(st, "del-call")
+					case *ast.DeferStmt:
+						del(st, "del-defer")
+					case *ast.GoStmt:
+						del(st, "del-go")
+					case *ast.IncDecStmt:
+						del(st, "del-incdec")
+					case *ast.BranchStmt:
+						del(st, "del-branch")
+					case *ast.SendStmt:
+						del(st, "del-send")
+					case *ast.AssignStmt:
+						if x.Tok != token.DEFINE {
+							del(st, "del-assign")
+						}
+					case *ast.IfStmt:
+						// an error check or guard dropped with its body
+						if x.Else == nil {
+							del(st, "del-if")
+						}
+					}
+				}
+			}
 			switch x := n.(type) {
 			case *ast.BinaryExpr:
 				for _, to := range swaps[x.Op] {
